@@ -461,7 +461,12 @@ def run_history(ctx, jax, fedjax, case, tmpdir):
     if not r1.ok:
       return done(False)
     # (2) apply again with the same arguments: same outputs
-    r2 = guarded(entry, apply, state, inputs, w=w)
+    # ... handed over in another container form with the SAME values: a tuple (algorithms take a Sequence of clients), a
+    # tuple or a one-shot generator (aggregators take an Iterable of (id, params, weight))
+    form = (rnd + len(inputs)) % 3
+    alt = inputs if form == 0 else (tuple(inputs) if (form == 1 or not is_agg) else (x for x in list(inputs)))
+    ctx.count('second-apply-form:' + ['same', 'tuple', 'generator' if is_agg else 'tuple'][form])
+    r2 = guarded(entry, apply, state, alt, w=w)
     if not r2.ok:
       return done(False)
     verify_input(snap, 'after the second apply', w)
